@@ -38,7 +38,7 @@ CONV = {"std_logic_vector": "slv", "unsigned": "uns", "signed": "sgn"}
 # instances are registered in this order: architecture body first, then those created while the contexts are traced
 PLACE_RANK = {"arch": 0, "conc": 1, "always": 2}
 
-HEADER = "import cohdl\nfrom cohdl import std, Bit, BitVector, Unsigned, Signed, Port, Signal\n\n"
+HEADER = "import cohdl\nfrom cohdl import std, Bit, BitVector, Unsigned, Signed, Port, Signal, Array\n\n"
 
 
 def pyty(kind, w):
@@ -90,7 +90,50 @@ class Gen:
             return ("r", n, lo + off, w)
         return ("c", w, r.randrange(1 << w))
 
-    def template(self, level, top=False):
+    def derive(self, bid, level):
+        """a template built by INHERITANCE from template `bid` (`class D(B)`): adds ports, re-declares inherited ports
+        (another type, another default), overrides the architecture - or keeps the inherited architecture and only
+        re-declares the default of a registered output.  The interface of the derived template is computed here from
+        its own description: the base's ports in their order (a re-declared port keeps its position) followed by the
+        added ports in declaration order."""
+        import copy
+        r = self.rng
+        B = self.templates[bid]
+        variant = r.choice(["add", "add", "redeclare", "both", "default"])
+        if variant == "default" and B.get("fused"):
+            D = copy.deepcopy(B)
+            D["name"] = f"E{self.n}"
+            self.n += 1
+            D.pop("cname", None)
+            q = r.choice(sorted(D["fused"]))
+            D["locals"] = [(n, k, w, (d + 1 + r.randrange((1 << w) - 1)) % (1 << w) if n == q else d) for (n, k, w, d) in D["locals"]]
+            D.update({"base": bid, "own_ports": [D["fused"][q]], "inherit_arch": True})
+            self.templates[D["name"]] = D
+            self.levels.setdefault(level, []).append(D["name"])
+            return D["name"]
+        ports, own = list(B["ports"]), []
+        if variant in ("redeclare", "both"):
+            idx = r.choice([i for i, p in enumerate(ports) if p[0] not in ("clk", "a0")])
+            n, d, k, w = ports[idx]
+            nk, nw = self.rand_type()
+            while (nk, nw) == (k, w):
+                nk, nw = self.rand_type()
+            ports[idx] = (n, d, nk, nw)
+            own.append(n)
+        if variant != "redeclare" or r.random() < 0.3:
+            for _ in range(r.randint(1, 2)):
+                d = r.choice(["in", "out", "out"])
+                n = f"{'b' if d == 'in' else 'z'}{len(ports)}"
+                ports.append((n, d) + self.rand_type())
+                own.append(n)
+        r.shuffle(own)
+        added = [n for n in own if n not in {p[0] for p in B["ports"]}]
+        ports = [p for p in ports if p[0] not in added] + [next(p for p in ports if p[0] == n) for n in added]
+        # a port the base declares with a default (registered output) is always re-declared: the derived entity has its own logic
+        own += [pn for pn in B.get("fused", {}).values() if pn not in own]
+        return self.template(level, preset={"ports": ports, "base": bid, "own_ports": own})
+
+    def template(self, level, top=False, preset=None):
         r = self.rng
         name = "Top" if top else f"E{self.n}"
         self.n += 1
@@ -100,7 +143,10 @@ class Gen:
             ports.append((f"a{i}", "in") + (self.rand_type() if i else (r.choice(["slv", "uns", "sgn"]), self.max_w)))
         for i in range(r.randint(2, 3) if top else r.randint(1, 2)):
             ports.append((f"y{i}", "out") + self.rand_type())
-        t = {"name": name, "ports": ports, "locals": [], "logic": [], "insts": []}
+        t = {"name": name, "ports": ports, "locals": [], "logic": [], "insts": [], "arrays": {}}
+        if preset is not None:
+            ports = t["ports"] = list(preset["ports"])
+            t.update({"base": preset["base"], "own_ports": list(preset["own_ports"])})
         sig = {p[0]: (p[2], p[3]) for p in ports}
         readable = [(p[0], 0, p[3]) for p in ports if p[1] == "in" and p[0] != "clk"]
         undriven = [p for p in ports if p[1] == "out"]
@@ -113,13 +159,19 @@ class Gen:
             sig[nm] = (kind, w)
             return nm
 
-        def drive_comb(nm, w):
+        def drive_comb(nm, w, base=0):
             if w >= 4 and r.random() < 0.35:
                 cut = r.randint(2, w - 2)
-                t["logic"].append(("comb", (nm, 0, cut), self.expr(cut, readable, 2)))
-                t["logic"].append(("comb", (nm, cut, w - cut), self.expr(w - cut, readable, 2)))
+                t["logic"].append(("comb", (nm, base, cut), self.expr(cut, readable, 2)))
+                t["logic"].append(("comb", (nm, base + cut, w - cut), self.expr(w - cut, readable, 2)))
             else:
-                t["logic"].append(("comb", (nm, 0, w), self.expr(w, readable, 2)))
+                t["logic"].append(("comb", (nm, base, w), self.expr(w, readable, 2)))
+
+        def new_array(kind, w, count, pre):
+            """`Signal[Array[T, count]]`: flat storage, element i = bits [i*w, (i+1)*w)"""
+            nm = new_local(kind, w, None, pre)
+            t["arrays"][nm] = count
+            return nm
 
         regs = []
         n_reg = r.randint(0, 2) if level > 0 else r.choice([0, 1, 1, 2])
@@ -133,7 +185,31 @@ class Gen:
             actions += ["inst"] * r.randint(1, self.fanout)
         actions += ["comb"] * r.randint(0, 2)
         r.shuffle(actions)
+        if level > 0 and r.random() < 0.5:
+            actions.insert(0, "comb")
+        forced = []
+        if level > 0 and r.random() < 0.35:
+            # an inheritance family (base, derived, siblings / a chain), all instantiated in this parent, in any order
+            pool = self.levels.get(level - 1, [])
+            fam = [r.choice(pool) if pool and r.random() < 0.4 else self.template(level - 1)]
+            for _ in range(r.randint(1, 2)):
+                fam.append(self.derive(r.choice(fam), level - 1))
+            r.shuffle(fam)
+            forced = fam
+            for _ in range(len(forced) - actions.count("inst")):
+                actions.insert(r.randint(0, len(actions)), "inst")
         for act in actions:
+            if act == "comb" and r.random() < 0.4:
+                # an array signal, every element driven by concurrent logic; its elements (slices, bits, typed views
+                # of them) are actuals of later instances
+                kind, w = self.rand_type(allow_bit=False)
+                count = r.randint(2, 4)
+                nm = new_array(kind, w, count, "m")
+                t["arrays"][nm] = count
+                for e in range(count):
+                    drive_comb(nm, w, e * w)
+                readable += [(nm, e * w, w) for e in range(count)]
+                continue
             if act == "comb":
                 kind, w = self.rand_type()
                 nm = new_local(kind, w, r.choice([None, r.randrange(1 << w)]), "c")
@@ -142,7 +218,9 @@ class Gen:
                 continue
             sublevel = level - 1 if r.random() < 0.8 else r.randint(0, level - 1)
             pool = self.levels.get(sublevel, [])
-            if pool and r.random() < 0.5:
+            if forced:
+                sub = forced.pop()
+            elif pool and r.random() < 0.5:
                 sub = r.choice(pool)
             else:
                 sub = self.template(sublevel)
@@ -153,13 +231,14 @@ class Gen:
                 if f == "clk":
                     acts.append((f, ("clk", 0, 1), True))
                 elif d == "in":
-                    acts.append((f,) + self.input_actual(fk, fw, readable, sig, new_local, drive_comb))
+                    acts.append((f,) + self.input_actual(fk, fw, readable, sig, new_local, drive_comb, t["arrays"]))
                 else:
-                    ref, plain = self.output_actual(fk, fw, undriven, sig, new_local)
+                    ref, plain = self.output_actual(fk, fw, undriven, sig, new_local, new_array)
                     acts.append((f, ref, plain))
                     new_readable.append(ref)
             r.shuffle(acts)  # keyword arguments are given in an order unrelated to the declaration order
-            t["insts"].append({"t": sub, "acts": acts, "place": r.choice(["arch", "arch", "conc", "always"])})
+            t["insts"].append({"t": sub, "acts": acts, "place": r.choice(["arch", "arch", "conc", "always"]),
+                               "via": r.choice(["", "", "std.OpenEntity", "std.ConnectedEntity"])})
             readable += new_readable
         for p in undriven:
             if r.random() < 0.3:
@@ -175,11 +254,13 @@ class Gen:
                 drive_comb(p[0], p[3])
         for nm, w in regs:
             t["logic"].append(("reg", (nm, 0, w), self.expr(w, readable, 2)))
+        if "base" in t:
+            t["own_ports"] += [pn for pn in t.get("fused", {}).values() if pn not in t["own_ports"]]
         self.templates[name] = t
         self.levels.setdefault(level, []).append(name)
         return name
 
-    def input_actual(self, fk, fw, readable, sig, new_local, drive_comb):
+    def input_actual(self, fk, fw, readable, sig, new_local, drive_comb, arrs):
         r = self.rng
 
         def ok(x):
@@ -199,16 +280,17 @@ class Gen:
             drive_comb(nm, fw)
             readable.append((nm, 0, fw))
             return ((nm, 0, fw), True)
-        exact = [x for x in cands if x[2] == fw and sig[x[0]] == (fk, fw)]
+        exact = [x for x in cands if x[2] == fw and sig[x[0]] == (fk, fw) and x[0] not in arrs]
         if exact and r.random() < 0.4:
             n, lo, w = r.choice(exact)
             return ((n, 0, fw), True)
-        n, lo, w = r.choice(cands)
-        off = r.randint(0, w - fw)
+        acands = [x for x in cands if x[0] in arrs]
+        n, lo, w = r.choice(acands if acands and r.random() < 0.5 else cands)
+        off = r.randint(0, w - fw) if not (n in arrs and w == fw) else 0
         ref = (n, lo + off, fw)
-        return (ref, sig[n] == (fk, fw))
+        return (ref, sig[n] == (fk, fw) and n not in arrs)
 
-    def output_actual(self, fk, fw, undriven, sig, new_local):
+    def output_actual(self, fk, fw, undriven, sig, new_local, new_array):
         r = self.rng
         ports = [p for p in undriven if p[3] == fw and (p[2] == fk or (self.views and p[2] != "bit" and fk != "bit"))]
         c = r.random()
@@ -217,6 +299,18 @@ class Gen:
             undriven.remove(p)
             return ((p[0], 0, fw), p[2] == fk)
         dflt = lambda w: r.choice([None, r.randrange(1 << w)])
+        if fk != "bit" and r.random() < 0.2:
+            # an element of a fresh array signal (whole element, possibly through a typed view, or a slice of it)
+            k = r.choice(["slv", "uns", "sgn"]) if self.views else fk
+            w = fw + r.choice([0, 0, 0, 1, 2])
+            count = r.randint(2, 4)
+            nm = new_array(k, w, count, "m")
+            return ((nm, r.randrange(count) * w + r.randint(0, w - fw), fw), False)
+        if fk == "bit" and r.random() < 0.15:
+            k, w = self.rand_type(allow_bit=False)
+            count = r.randint(2, 4)
+            nm = new_array(k, w, count, "m")
+            return ((nm, r.randrange(count * w), 1), False)
         if c < 0.7:
             nm = new_local(fk, fw, dflt(fw), "s")
             return ((nm, 0, fw), True)
@@ -235,11 +329,25 @@ class Gen:
 # ---------------------------------------------------------------------------------------------------
 
 
+class SigTable(dict):
+    arrays = {}
+
+
 def sig_table(t):
-    s = {p[0]: (p[2], p[3], "port") for p in t["ports"]}
+    s = SigTable({p[0]: (p[2], p[3], "port") for p in t["ports"]})
     for (n, k, w, d) in t["locals"]:
         s[n] = (k, w, "local")
+    s.arrays = t.get("arrays", {})
     return s
+
+
+def pybase(n, lo, sigs):
+    """python expression of the object that is sliced + the offset inside it (array signals: the element)"""
+    base = pyname(n, sigs)
+    if getattr(sigs, "arrays", {}).get(n):
+        w = sigs[n][1]
+        return f"{base}[{lo // w}]", lo % w
+    return base, lo
 
 
 def pyname(n, sigs):
@@ -249,7 +357,7 @@ def pyname(n, sigs):
 def render_read(ref, sigs):
     n, lo, w = ref
     k, rw, _ = sigs[n]
-    base = pyname(n, sigs)
+    base, lo = pybase(n, lo, sigs)
     if k == "bit":
         return base
     if w == 1:
@@ -275,7 +383,7 @@ def render_expr(e, sigs):
 def render_actual(f, ref, fk, sigs):
     n, lo, w = ref
     k, rw, _ = sigs[n]
-    base = pyname(n, sigs)
+    base, lo = pybase(n, lo, sigs)
     if k == "bit":
         return base
     if fk == "bit":
@@ -303,11 +411,11 @@ def dflt_literal(kind, w, d):
 def render_assign(ref, e, sigs):
     n, lo, w = ref
     k, rw, cls = sigs[n]
-    base = pyname(n, sigs)
+    base, lo = pybase(n, lo, sigs)
     rhs = render_expr(e, sigs)
     if k == "bit" or (lo == 0 and w == rw and k == "uns"):
         # a bare closure variable cannot be the target of an augmented assignment inside a traced function
-        return f"{base}.next = {rhs}" if cls == "local" else f"{base} <<= {rhs}"
+        return f"{base}.next = {rhs}" if cls == "local" and base == n else f"{base} <<= {rhs}"
     if w == 1:
         return f"{base}[{lo}] <<= {rhs}"
     if lo == 0 and w == rw:
@@ -315,7 +423,7 @@ def render_assign(ref, e, sigs):
     return f"{base}[{lo + w - 1}:{lo}].unsigned <<= {rhs}"
 
 
-PY_TAKEN = {"cohdl", "std", "Bit", "BitVector", "Unsigned", "Signed", "Port", "Signal", "self", "logic", "proc"}
+PY_TAKEN = {"cohdl", "std", "Bit", "BitVector", "Unsigned", "Signed", "Port", "Signal", "Array", "self", "logic", "proc"}
 
 
 def factory_ok(cname):
@@ -328,24 +436,30 @@ def render_template(t, templates):
     fused = t.get("fused", {})
     fdef = {fused[n]: d for (n, k, w, d) in t["locals"] if n in fused}
     cname, style = t.get("cname", t["name"]), t.get("style", "plain")
+    parent = t.get("base", "cohdl.Entity")  # `class D(B)`: the ports of B are inherited
     if cname == t["name"]:
-        L = [f"class {t['name']}(cohdl.Entity):"]
+        L = [f"class {t['name']}({parent}):"]
     elif style == "factory" and factory_ok(cname):
         # the usual way to write a parametrised entity: every call of the factory returns a NEW class of that name
-        L = [f"class {cname}(cohdl.Entity):"]
+        L = [f"class {cname}({parent}):"]
     else:
-        L = [f"class {t['name']}(cohdl.Entity, name={cname!r}):"]
-    for (n, d, k, w) in t["ports"]:
+        L = [f"class {t['name']}({parent}, name={cname!r}):"]
+    decl = t["ports"] if "base" not in t else [next(p for p in t["ports"] if p[0] == n) for n in t["own_ports"]]
+    for (n, d, k, w) in decl:
         if n in fdef:
             L.append(f"    {n} = Port.output({pyty(k, w)}, default={dflt_literal(k, w, fdef[n])})")
             continue
         L.append(f"    {n} = Port.{'input' if d == 'in' else 'output'}({pyty(k, w)})")
+    if t.get("inherit_arch"):
+        return finish_class(L, cname, t)
     L.append("")
     L.append("    def architecture(self):")
     for (n, k, w, d) in t["locals"]:
         if n in fused:
             continue
-        if d is None:
+        if t.get("arrays", {}).get(n):
+            L.append(f'        {n} = Signal[Array[{pyty(k, w)}, {t["arrays"][n]}]](name="{n}")')
+        elif d is None:
             L.append(f'        {n} = Signal[{pyty(k, w)}](name="{n}")')
         else:
             L.append(f'        {n} = Signal[{pyty(k, w)}]({dflt_literal(k, w, d)}, name="{n}")')
@@ -353,7 +467,7 @@ def render_template(t, templates):
     def inst_line(i):
         st = templates[i["t"]]
         fk = {p[0]: p[2] for p in st["ports"]}
-        return f"{i['t']}(" + ", ".join(f"{f}={render_actual(f, ref, fk[f], sigs)}" for (f, ref, _pl) in i["acts"]) + ")"
+        return f"{i['t'] if not i.get('via') else i['via'] + '[' + i['t'] + ']'}(" + ", ".join(f"{f}={render_actual(f, ref, fk[f], sigs)}" for (f, ref, _pl) in i["acts"]) + ")"
 
     for i in t["insts"]:
         if i["place"] == "arch":
@@ -384,6 +498,10 @@ def render_template(t, templates):
             L.append("            with cohdl.always:")
             for i in always:
                 L.append("                " + inst_line(i))
+    return finish_class(L, cname, t)
+
+
+def finish_class(L, cname, t):
     if L[0].startswith(f"class {cname}(") and cname != t["name"]:
         L = [f"def make_{t['name']}():"] + ["    " + l if l else l for l in L] + [f"    return {cname}", "", "", f"{t['name']} = make_{t['name']}()"]
     return "\n".join(L) + "\n"
@@ -405,8 +523,27 @@ def topo_names(design):
     return out
 
 
+def class_order(design):
+    """python classes must be defined before they are used or derived from (a base class need not be instantiated)"""
+    out, seen = [], set()
+
+    def visit(n):
+        if n in seen:
+            return
+        seen.add(n)
+        t = design["templates"][n]
+        if "base" in t:
+            visit(t["base"])
+        for i in t["insts"]:
+            visit(i["t"])
+        out.append(n)
+
+    visit(design["top"])
+    return out
+
+
 def render_hier(design):
-    return HEADER + "\n\n".join(render_template(design["templates"][n], design["templates"]) for n in topo_names(design))
+    return HEADER + "\n\n".join(render_template(design["templates"][n], design["templates"]) for n in class_order(design))
 
 
 # ---- hand inlining (python side, independent of the Lean `flatten`)
@@ -433,7 +570,7 @@ def subst_expr(b, e):
 def inline_design(design):
     T = design["templates"]
     top = T[design["top"]]
-    flat = {"name": "Top", "ports": list(top["ports"]), "locals": [], "logic": [], "insts": []}
+    flat = {"name": "Top", "ports": list(top["ports"]), "locals": [], "logic": [], "insts": [], "arrays": {}}
 
     def go(t, pfx, sigma):
         b = dict(sigma)
@@ -446,6 +583,8 @@ def inline_design(design):
         for (n, k, w, d) in t["locals"]:
             b[n] = (pfx + n, 0)
             flat["locals"].append((pfx + n, k, w, None if n in driven else d))
+            if t.get("arrays", {}).get(n):
+                flat["arrays"][pfx + n] = t["arrays"][n]
         for (kind, ref, e) in t["logic"]:
             flat["logic"].append((kind, bind_ref(b, ref), subst_expr(b, e)))
         for k, i in enumerate(t["insts"]):
@@ -480,7 +619,7 @@ def sx_expr(e):
 def sx_template(design, name):
     t = design["templates"][name]
     ports = " ".join(f"(p {n} {d} {k} {w})" for (n, d, k, w) in t["ports"])
-    locs = " ".join(f"(l {n} {k} {w} {'-' if d is None else d})" for (n, k, w, d) in t["locals"])
+    locs = " ".join(f"(l {n} {k} {w} {'-' if d is None else d} {t.get('arrays', {}).get(n) or 1})" for (n, k, w, d) in t["locals"])
     logic = " ".join(f"({kind} {sx_ref(ref)} {sx_expr(e)})" for (kind, ref, e) in t["logic"])
     insts = " ".join(
         f"(i {sx_template(design, i['t'])} " + " ".join(f"(a {f} {sx_ref(ref)} {1 if pl else 0})" for (f, ref, pl) in i["acts"]) + ")"
@@ -494,6 +633,48 @@ def sx_template(design, name):
 
 
 
+_NESTED_OUT = re.compile(r"^(\s*)(\w+) => (\w+\(\d+\)\((?:\d+ downto \d+|\d+)\))(,?)\s*$")
+_INST = re.compile(r"^\s*(\w+): entity (\w+)\.(\w+)")
+_ENT = re.compile(r"entity (\w+) is\s+port \((.*?)\);\s*end", re.S)
+
+
+def lower_nested_out_actuals(text):
+    """harness.vhdl_sim collapses a formal onto a name, a slice or an index of the actual's storage, but not onto a slice /
+    bit OF AN ARRAY ELEMENT (`v => rv(3)(1)`): for an OUTPUT formal that is "associated with an expression".  Such
+    associations are rewritten into an intermediate signal of the formal's type and `actual <= tmp;` (semantically
+    equivalent; types stay checked by the assignment).  SHARED-CHANGE-REQUEST in notes/C12.md."""
+    lines = text.split("\n")
+    if not any(_NESTED_OUT.match(l) for l in lines):
+        return text
+    ptypes = {}
+    for m in _ENT.finditer(text):
+        for line in m.group(2).split("\n"):
+            mm = re.match(r"\s*(\w+) : (in|out|inout) (.*?);?\s*$", line)
+            if mm:
+                ptypes[(m.group(1).lower(), mm.group(1).lower())] = (mm.group(2), mm.group(3))
+    out, decl_at, ent, inst_at, k, decls = [], None, None, None, 0, []
+    for line in lines:
+        if line == "begin":
+            decl_at = len(out)
+        m = _INST.match(line)
+        if m:
+            ent, inst_at = m.group(3), len(out)
+        m = _NESTED_OUT.match(line)
+        if m and ent is not None and ptypes.get((ent.lower(), m.group(2).lower()), ("in",))[0] == "out":
+            ind, formal, actual, comma = m.groups()
+            tmp = f"c12out{k}"
+            k += 1
+            decls.append((decl_at, f"  signal {tmp} : {ptypes[(ent.lower(), formal.lower())][1]};"))
+            out.insert(inst_at, f"  {actual} <= {tmp};")
+            inst_at += 1
+            out.append(f"{ind}{formal} => {tmp}{comma}")
+            continue
+        out.append(line)
+    for at, d in sorted(decls, key=lambda x: -x[0]):
+        out.insert(at, d)
+    return "\n".join(out)
+
+
 def raw(d, name):
     v = d.get_raw(name)
     return getattr(v, "bits", None) or getattr(v, "v", None) or str(v)
@@ -501,7 +682,7 @@ def raw(d, name):
 
 def sim_vhdl(text, in_ports, out_ports, inputs, top=None):
     """inputs: list of {port: nat}; returns per clock 'pre|post' with the raw bit strings of the outputs"""
-    d = Design(text, top=top)  # top=None: the last entity of the text
+    d = Design(lower_nested_out_actuals(text), top=top)  # top=None: the last entity of the text
     d.set("clk", 0)
     for (n, k, w) in in_ports:
         d.set(n, 0 if k == "bit" else format(0, f"0{w}b"))
@@ -576,8 +757,17 @@ def library_structure(text):
         a = e["arch"] or {"decls": [], "stmts": []}
         sigs = {p[0]: (p[2], p[3], False) for p in e["ports"]}
         outs = {p[0] for p in e["ports"] if p[1] == "out"}
+        atypes, arrs = {}, {}
         for d in a["decls"]:
+            if d["decl"] == "arraytype" and d["l"] == ("int", 0) and d["r"][0] == "int":
+                atypes[d["name"].lower()] = (canon_type(d["elem"]), d["r"][1] + 1)
             if d["decl"] == "signal":
+                if d["type"][0] == "plain" and d["type"][1].lower() in atypes:
+                    # array signal: flat addressing, element i = bits [i*w, (i+1)*w) (as in the Lean model)
+                    (ek, ew), cnt = atypes[d["type"][1].lower()]
+                    sigs[d["name"]] = (ek, ew, d["default"] is not None)
+                    arrs[d["name"]] = cnt
+                    continue
                 sigs[d["name"]] = canon_type(d["type"]) + (d["default"] is not None,)
         insts = []
         for s in a["stmts"]:
@@ -593,22 +783,30 @@ def library_structure(text):
                 if x[0] == "call" and x[1].lower() in CONV and len(x[2]) == 1:
                     aconv = CONV[x[1].lower()]
                     x = x[2][0]
-                if x[0] == "name":
-                    root, lo, w = x[1], 0, None
-                elif x[0] == "slice" and x[1][0] == "name" and x[3] == "downto":
-                    root, lo, w = x[1][1], x[4][1], x[2][1] - x[4][1] + 1
+                def elem(b):
+                    """(root, offset of the selected object, its width) for a name or an element of an array signal"""
+                    if b[0] == "name":
+                        return b[1], 0, sigs.get(b[1], ("?", None, False))[1]
+                    if b[0] == "call" and len(b[2]) == 1 and b[2][0][0] == "int" and b[1] in arrs:
+                        ew = sigs[b[1]][1]
+                        return b[1], b[2][0][1] * ew, ew
+                    return None
+
+                isbit = False
+                if elem(x) is not None:
+                    root, lo, w = elem(x)
+                elif x[0] == "slice" and elem(x[1]) is not None and x[3] == "downto":
+                    root, base, _w = elem(x[1])
+                    lo, w = base + x[4][1], x[2][1] - x[4][1] + 1
                 elif x[0] == "call" and len(x[2]) == 1 and x[2][0][0] == "int":
-                    root, lo, w = x[1], x[2][0][1], 1
+                    root, lo, w, isbit = x[1], x[2][0][1], 1, True
+                elif x[0] == "index" and elem(x[1]) is not None and x[2][0] == "int":
+                    root, base, _w = elem(x[1])
+                    lo, w, isbit = base + x[2][1], 1, True
                 else:
                     root, lo, w = str(x), 0, None
                 rk, rw, _ = sigs.get(root, ("?", None, False))
-                if w is None:
-                    w = rw
-                    akind = rk
-                elif x[0] == "call":
-                    akind = "bit"
-                else:
-                    akind = rk
+                akind = "bit" if isbit else rk
                 if root.startswith("buffer_") and root[7:] in outs:
                     root = root[7:]
                 if f in pm:
@@ -617,6 +815,14 @@ def library_structure(text):
             insts.append((s["label"], s["entity"], pm, dup))
         res.append((name, e["ports"], sigs, insts))
     return res
+
+
+def elem_hint(t, root, lo):
+    cnt = t.get("arrays", {}).get(root)
+    if not cnt:
+        return ""
+    w = {l[0]: l[2] for l in t["locals"]}[root]
+    return f" (element {lo // w} of the array signal {root}, bits from {lo % w})"
 
 
 def check_structure(design, text, model_emit):
@@ -689,11 +895,19 @@ def check_structure(design, text, model_emit):
             dw = sorted((i["t"], k) for k, i in want.items())
             if mw != dw:
                 fails.append(("portmap-model", f"{tid}: emitHier port maps {mw} differ from the design {dw}"))
+        pairs = [(key, got[key]) for key in want if key in got]
+        # an instance statement with extra / missing associations is still followed into its entity when it agrees with
+        # exactly one instantiation on the associations they share (so that the entity's interface is reported too)
+        left_g = [k for k in got if k not in want]
         for key in want:
             if key not in got:
-                continue
+                m = [g for g in left_g if len(set(g) & set(key)) >= 2 and dict(g).keys() & dict(key).keys()
+                     and all(dict(g)[f] == a for f, a in key if f in dict(g))]
+                if len(m) == 1:
+                    pairs.append((key, got[m[0]]))
+                    left_g.remove(m[0])
+        for key, (label, ent, pm) in pairs:
             sub = want[key]["t"]
-            label, ent, pm = got[key]
             cands = by_name.get(ent.lower(), [])
             if not cands:
                 fails.append(("unknown-entity", f"{shown}.{label} instantiates `{ent}` which is not declared in the library {names}"))
@@ -728,7 +942,7 @@ def check_structure(design, text, model_emit):
                     bad = aconv is not None or eff_formal != akind or (fconv and "bit" in (akind, fk))
                 if bad or w != fw:
                     fails.append((f"portmap-illtyped:{fdir}:{fk}<={akind}",
-                                  f"{shown}.{label}: formal {f} : {fdir} {fk}[{fw}] is associated with {root}[{lo}+:{w}] of VHDL type {akind}"
+                                  f"{shown}.{label}: formal {f} : {fdir} {fk}[{fw}] is associated with {root}[{lo}+:{w}]{elem_hint(t, root, lo)} of VHDL type {akind}"
                                   f" (conversions: actual {aconv}, formal {fconv}) - not a legal VHDL association"))
         # defaults of signals connected as whole objects to instance outputs
         if tid in m_by:
@@ -776,9 +990,11 @@ def design_stats(design):
 
     used = topo_names(design)
     acts = [(a, T[i["t"]], t) for n in used for t in [T[n]] for i in t["insts"] for a in i["acts"]]
-    kinds = {"plain": 0, "slice": 0, "view": 0, "index": 0}
+    kinds = {"plain": 0, "slice": 0, "view": 0, "index": 0, "array-element": 0}
     for (f, ref, plain), st, t in acts:
         s = sig_table(t)[ref[0]]
+        if t.get("arrays", {}).get(ref[0]):
+            kinds["array-element"] += 1
         fk = {p[0]: p[2] for p in st["ports"]}[f]
         if plain:
             kinds["plain"] += 1
@@ -797,7 +1013,9 @@ def design_stats(design):
     inst_of = [i["t"] for n in used for i in T[n]["insts"]]
     return {"depth": depth(design["top"]) - 1, "instances": count(design["top"]), "templates": len(used),
             "repeated": len(inst_of) - len(set(inst_of)), "actuals": kinds, "places": places,
-            "clocked": sum(1 for n in used if any(x[0] == "reg" for x in T[n]["logic"]))}
+            "clocked": sum(1 for n in used if any(x[0] == "reg" for x in T[n]["logic"])),
+            "derived": sum(1 for n in used if "base" in T[n]),
+            "connector": sum(1 for n in used for i in T[n]["insts"] if i.get("via"))}
 
 
 def first_diff(a, b):
@@ -912,6 +1130,43 @@ def gate_corpus():
     return out
 
 
+def inherit_corpus():
+    """fixed minimal designs for templates built by inheritance: a registered base entity, a derived entity that ADDS an
+    output, one that RE-DECLARES the default of the inherited output (inherited architecture), one that re-declares its type;
+    base, derived and siblings instantiated in one parent in different orders, directly and through the connector helpers"""
+    def reg(tid, ports, dflt, extra=(), **kw):
+        t = {"name": tid, "ports": ports, "locals": [("q0", "uns", 3, dflt)], "arrays": {}, "insts": [],
+             "logic": [("comb", ("q", 0, 3), ("r", "q0", 0, 3)), ("reg", ("q0", 0, 3), ("add", 3, ("r", "q", 0, 3), ("r", "a", 0, 3)))] + list(extra),
+             "fused": {"q0": "q"}}
+        t.update(kw)
+        return t
+
+    bp = [("clk", "in", "bit", 1), ("a", "in", "uns", 3), ("q", "out", "uns", 3)]
+    out = []
+    for order in ((0, 1, 2, 3), (3, 2, 1, 0), (1, 0), (2, 0), (0, 3)):
+        for via in ("", "std.OpenEntity"):
+            T = {"E0": reg("E0", bp, 1),
+                 "E1": reg("E1", bp + [("dbg", "out", "uns", 3)], 2, extra=[("comb", ("dbg", 0, 3), ("xor", 3, ("r", "a", 0, 3), ("r", "q", 0, 3)))],
+                           base="E0", own_ports=["dbg", "q"]),
+                 "E2": reg("E2", bp, 6, base="E0", own_ports=["q"], inherit_arch=True),
+                 "E3": {"name": "E3", "ports": [bp[0], ("a", "in", "slv", 3), bp[2], ("en", "in", "bit", 1)], "locals": [], "arrays": {}, "insts": [],
+                        "logic": [("comb", ("q", 0, 3), ("and", 3, ("r", "a", 0, 3), ("c", 3, 5)))], "base": "E0", "own_ports": ["en", "a"]}}
+            ports = [("clk", "in", "bit", 1), ("x", "in", "uns", 3), ("xv", "in", "slv", 3), ("e", "in", "bit", 1)]
+            top = {"name": "Top", "ports": ports, "locals": [], "logic": [], "insts": [], "arrays": {}}
+            for k in order:
+                tid = f"E{k}"
+                acts = [("q", (f"o{k}", 0, 3), True), ("a", ("xv" if k == 3 else "x", 0, 3), True), ("clk", ("clk", 0, 1), True)]
+                ports.append((f"o{k}", "out", "uns", 3))
+                if k == 1:
+                    acts.append(("dbg", ("d1", 0, 3), True))
+                    ports.append(("d1", "out", "uns", 3))
+                if k == 3:
+                    acts.append(("en", ("e", 0, 1), True))
+                top["insts"].append({"t": tid, "place": "arch", "via": via, "acts": acts})
+            out.append({"templates": {**{f"E{k}": T[f"E{k}"] for k in set(order) | {0}}, "Top": top}, "top": "Top"})
+    return out
+
+
 def corpus_designs():
     """fixed minimal designs, always run first: every (formal kind, actual kind, direction) combination of a
     typed-view / slice actual whose VHDL type differs from the formal's (the association needs a conversion)"""
@@ -934,14 +1189,30 @@ def corpus_designs():
                                  "acts": [("y", (n, 1, 3), False), ("a", ("x" + rk, 2, 3), False), ("clk", ("clk", 0, 1), True)]})
             top["logic"].append(("comb", ("o", 3 * j, 3), ("r", n, 1, 3)))
         designs.append({"templates": {**{k: v for k, v in T.items() if k == "L" + fk}, "Top": top}, "top": "Top"})
+    # the same through ELEMENTS OF ARRAY SIGNALS: a typed view of a whole element (input and output), and a slice of an element
+    for fk in kinds:
+        ports = [("clk", "in", "bit", 1)] + [("x" + k, "in", k, 6) for k in kinds] + [("o", "out", "slv", 6), ("p", "out", "slv", 6)]
+        top = {"name": "Top", "ports": ports, "locals": [], "logic": [], "insts": [], "arrays": {}}
+        for j, rk in enumerate(k for k in kinds if k != fk):
+            m, n, n2 = f"m{rk}", f"n{rk}", f"w{rk}"
+            top["locals"] += [(m, rk, 3, None), (n, rk, 3, None), (n2, rk, 5, None)]
+            top["arrays"].update({m: 2, n: 3, n2: 2})
+            top["logic"] += [("comb", (m, 0, 3), ("r", "x" + rk, 0, 3)), ("comb", (m, 3, 3), ("r", "x" + rk, 3, 3))]
+            top["insts"].append({"t": "L" + fk, "place": "arch",
+                                 "acts": [("y", (n, 6, 3), False), ("a", (m, 3, 3), False), ("clk", ("clk", 0, 1), True)]})
+            top["insts"].append({"t": "L" + fk, "place": "conc",
+                                 "acts": [("a", (m, 0, 3), False), ("clk", ("clk", 0, 1), True), ("y", (n2, 5 + 1, 3), False)]})
+            top["logic"].append(("comb", ("o", 3 * j, 3), ("r", n, 6, 3)))
+            top["logic"].append(("comb", ("p", 3 * j, 3), ("r", n2, 6, 3)))
+        designs.append({"templates": {**{k: v for k, v in T.items() if k == "L" + fk}, "Top": top}, "top": "Top"})
     return designs
 
 
 def make_cases(ctx):
     rng = ctx.rng
-    n = ctx.scale(56, 420)
+    n = ctx.scale(44, 420)
     cases = []
-    for design in corpus_designs() + gate_corpus():
+    for design in corpus_designs() + gate_corpus() + inherit_corpus():
         top = design["templates"]["Top"]
         in_ports = [(p[0], p[2], p[3]) for p in top["ports"] if p[1] == "in" and p[0] != "clk"]
         out_ports = [(p[0], p[2], p[3]) for p in top["ports"] if p[1] == "out"]
@@ -971,12 +1242,23 @@ def run(ctx: Ctx):
                 "keyword arguments in random order; declared entity names unique or clashing (>=3 distinct templates of one name, case variants, renamed forms, labels, parent / top name, reserved words; 23 fixed naming designs first); each design rendered hierarchically and hand-inlined, both compiled and "
                 "simulated on the same random input sequence, sampled before and after every rising edge.  non-trivial = "
                 "at least one instance and the outputs change over time; distinct = distinct design source")
+    import time
+    t0 = time.time()
+    phases = ctx.extra.setdefault("phase_seconds", {})
+
+    def mark(name):
+        nonlocal t0
+        phases[name] = round(time.time() - t0, 1)
+        t0 = time.time()
+
     cases = make_cases(ctx)
+    mark("generate")
     srcs = []
     for c in cases:
         srcs.append((c["hier_src"], "Top"))
         srcs.append((c["inline_src"], "Top"))
     compiled = compile_many(srcs)
+    mark("compile")
     tasks, owner = [], []
     for k, c in enumerate(cases):
         c["hier"], c["inline"] = compiled[2 * k], compiled[2 * k + 1]
@@ -985,6 +1267,7 @@ def run(ctx: Ctx):
                 tasks.append((c[which]["vhdl"], c["in_ports"], c["out_ports"], c["inputs"]))
                 owner.append((k, which))
     sims = fork_map(_sim_task, tasks, fresh=False, chunk=4)
+    mark("simulate")
     for (k, which), s in zip(owner, sims):
         cases[k][which + "_sim"] = s[1] if s[0] == "ok" else {"err": "other", "msg": s[1]}
     reqs = []
@@ -993,6 +1276,7 @@ def run(ctx: Ctx):
         li = lean_inputs(c["inputs"], c["in_ports"])
         reqs += [f"flat {sx} | {li}", f"hier {sx} | {li}", f"emit {sx}"]
     answers = lean_io.query("C12", reqs)
+    mark("lean")
     n_prop = n_model = n_struct = n_rej = 0
     for k, c in enumerate(cases):
         c["m_flat"], c["m_hier"], c["m_emit"] = answers[3 * k: 3 * k + 3]
@@ -1001,6 +1285,7 @@ def run(ctx: Ctx):
         n_model += bad["model"]
         n_struct += bad["struct"]
         n_rej += bad["rejected"]
+    mark("judge")
     # second phase (batched): the entities of renamed / name-sharing templates on their own
     st = [(c, x) for c in cases for x in c.get("standalone", [])]
     if st:
@@ -1018,6 +1303,7 @@ def run(ctx: Ctx):
                            {"hier_src": c["hier_src"], "inline_src": c["inline_src"], "inputs": c["inputs"], "in_ports": c["in_ports"],
                             "out_ports": c["out_ports"], "design_sexpr": sx_template(c["design"], "Top"), "vhdl": c["hier"]["vhdl"],
                             "check": "structure", "template": n, "entity": en, "template_inputs": inp})
+    mark("standalone")
     if n_rej * 5 > len(cases):
         from .common import InfraError
         raise InfraError(f"{n_rej} of {len(cases)} generated designs are rejected in BOTH renderings: the generator no longer produces accepted designs ({ctx.notes[:2]})")
@@ -1145,6 +1431,8 @@ def judge(ctx, c, quiet=False):
         ctx.dist["actual:" + k2] += v
     for k2, v in stats["places"].items():
         ctx.dist["instance-in:" + k2] += v
+    ctx.dist["templates-built-by-inheritance"] += stats["derived"]
+    ctx.dist["instances-via-OpenEntity/ConnectedEntity"] += stats["connector"]
     ctx.dist["instances"] += stats["instances"]
     ctx.dist["repeated-template-instances"] += stats["repeated"]
     return bad
